@@ -32,9 +32,20 @@ lazy_static! {
     .unwrap();
 }
 
-pub(crate) fn exec(var: Variable) -> Variable {
-    let element_type = var.as_type().element_type().unwrap();
-    let default = Variable::of_type(&element_type).unwrap_or(Variable::Void);
+pub(crate) fn exec(var: Variable, static_type: Type) -> Variable {
+    let mut element_type = var.as_type().element_type().unwrap();
+    let mut default = Variable::of_type(&element_type);
+    if default.is_none() {
+        // an array without elements (`[]`) has no element type of its own to take the
+        // answer of the exhausted iterator from: the static type of the operand decides
+        if let Some(static_element) = static_type.element_type() {
+            default = Variable::of_type(&static_element);
+            if default.is_some() {
+                element_type = static_element;
+            }
+        }
+    }
+    let default = default.unwrap_or(Variable::Void);
     #[cfg(feature = "verif")]
     let _verif_scope = crate::verif::helper_scope();
     let result = ITER
